@@ -63,8 +63,8 @@ def report():
     out = {}
     for c, hit in _state["hit"].items():
         label = _state["names"][c]
-        d = out.setdefault(label, {"hit": set(), "all": set()})
+        d = out.setdefault(label, {"hit": set(), "all": set(), "file": c.co_filename})
         tot = _state["total"][c]
         d["hit"] |= (hit & tot) if tot else hit
         d["all"] |= tot
-    return {k: {"hit": sorted(v["hit"]), "all": sorted(v["all"])} for k, v in out.items()}
+    return {k: {"hit": sorted(v["hit"]), "all": sorted(v["all"]), "file": v["file"]} for k, v in out.items()}
